@@ -14,6 +14,9 @@ COMMANDS = ["fd"]
 # Execution flags that take commands as arguments
 EXEC_FLAGS = frozenset({"-x", "--exec", "-X", "--exec-batch"})
 
+# Short flags without an argument (may precede -x/-X in one cluster)
+_SHORT_NOARG = frozenset("HIusigFaLp0lq1")
+
 # Map flags to descriptive form
 FLAG_DISPLAY = {
     "-x": "-x (execute)",
@@ -37,6 +40,26 @@ def classify(ctx: HandlerContext) -> Classification:
             exec_flag_idx = i
             exec_flag = token
             break
+        # Attached forms: --exec=cmd, --exec-batch=cmd, -xcmd, -Xcmd, and -x/-X
+        # at the end of a cluster of argument-less short flags (-Hx cmd)
+        if token.startswith("-") and not token.startswith("--"):
+            k = 1
+            while k < len(token) and token[k] in _SHORT_NOARG:
+                k += 1
+            if 1 < k < len(token) and token[k] in "xX":
+                token = "-" + token[k:]
+                if len(token) == 2:
+                    exec_flag_idx = i
+                    exec_flag = token
+                    break
+        for flag in ("--exec-batch=", "--exec=", "-x", "-X"):
+            if token.startswith(flag) and len(token) > len(flag):
+                inner = [token[len(flag) :]] + tokens[i + 1 :]
+                return Classification(
+                    "delegate",
+                    inner_command=" ".join(bash_quote(t) for t in inner),
+                    description=f"fd {flag.rstrip('=')} {inner[0]}",
+                )
 
     # No execution flag - just a search, safe to approve
     if exec_flag_idx is None:
